@@ -113,6 +113,8 @@ var c14Scenarios = []c14Scenario{
 	{"sorting the same descending variable", [][]c14Call{{{"$v[last()]", "/"}}, {{"($v)[1]", "/"}}, {{"$v | $v", "/"}}}},
 	{"attribute and namespace lists of several context nodes", [][]c14Call{{{"(/* | //b)/@*", "/"}}, {{"//*/@*", "/0/0"}}, {{"//*/namespace::*", "/"}}}},
 	{"child lists of several context nodes", [][]c14Call{{{"//*/*", "/"}}, {{"(//b | /*)/node()", "/"}}}},
+	{"node-set comparisons of shared operands", [][]c14Call{{{"//b = //c", "/"}}, {{"//c = //b/c", "/"}}, {{"$v = $w", "/"}}}},
+	{"comparisons and string functions", [][]c14Call{{{"//*[. = //c]", "/"}}, {{"concat(//b, //c) = string($v)", "/0/0"}}}},
 	{"sibling axes over the same child list", [][]c14Call{{{"//d/preceding-sibling::node()", "/"}}, {{"/*/*[1]/following-sibling::node()", "/"}}, {{"//d/preceding-sibling::*[1]", "/"}}}},
 }
 
@@ -547,8 +549,64 @@ func C14Race(args []string) int {
 			}
 		}
 	}
+	// broad pass: many kinds of expression (comparisons of every operand type,
+	// string/number/node functions, predicates, unions, variables) evaluated by 8
+	// goroutines at once on one shared tree with shared compiled expressions and
+	// shared binding maps; every result is compared with the serial one
+	for round := 0; round < 6; round++ {
+		sc := c14Scenario{Name: "broad", Threads: [][]c14Call{{}}}
+		for _, e := range c14BroadMenu {
+			sc.Threads[0] = append(sc.Threads[0], c14Call{e, []string{"/", "/0/0", "/0"}[len(sc.Threads[0])%3]})
+		}
+		w := newC14World(sc)
+		w.tree.free = true
+		if round%2 == 1 {
+			w.real = true
+			w.reset()
+		}
+		calls := sc.Threads[0]
+		serial := make([]string, len(calls))
+		for i, c := range calls {
+			serial[i] = w.exec(c)
+		}
+		var wg sync.WaitGroup
+		bad := make(chan string, 64)
+		for g := 0; g < 8; g++ {
+			g := g
+			wg.Add(1)
+			go func() {
+				defer wg.Done()
+				for k := range calls {
+					i := (k*7 + g*5) % len(calls)
+					if got := w.exec(calls[i]); got != serial[i] {
+						select {
+						case bad <- fmt.Sprintf("%q from %s returned %s, serially %s", calls[i].Expr, calls[i].Ctx, got, serial[i]):
+						default:
+						}
+					}
+				}
+			}()
+		}
+		wg.Wait()
+		select {
+		case msg := <-bad:
+			fmt.Println("DATA RACE (observed): broad pass:", msg)
+			return 1
+		default:
+		}
+	}
 	fmt.Println("race pass done")
 	return 0
+}
+
+var c14BroadMenu = []string{
+	"//b = //c", "//b != //c", "//b < //c", "//c >= //b", "$v = $w", "$v != $w", "$w = '2'", "//c = 2", "//b = true()", "//*[. = //c]", "//*[@* = //c]", "string(//b) = //c", "count(//b[. = //c])",
+	"//b/@i < //c", "//@* = //c", "//@* != //@*", "//b/ancestor::* = //c/ancestor::*", "boolean(//b) and //c = //b", "//c = //c or //b = //d", "not(//d = //b)",
+	"sum(//c) > count(//b)", "sum(//c | //b/c)", "-//c + sum(//b/c)", "count(//node())", "floor(sum(//c) div 3)", "round(//c * 1.5)", "//c mod 2", "number(//b/@i) + 1",
+	"concat(//b, '|', //c)", "//b[contains(., '1')]", "translate(string(//c), '23', 'xy')", "normalize-space(//b)", "substring(//b, 1, 2)", "substring-before(//b, '2')", "string-length(//b)", "starts-with(//c, '2')",
+	"name(//*[last()])", "local-name(//@*)", "namespace-uri(//*)", "//*[lang('en')]", "count(//namespace::*)", "name(//namespace::*[2])",
+	"//b | //c | //d", "$v | $w", "$v[last()]", "($w)[1]", "$v/..", "$w/ancestor-or-self::*", "//b[2]/preceding::*", "//c/following::node()", "//*[position() = last()]", "//*[count(*) > 1][1]", "/*/*[2]/*", "//b//c", "//text()", "//comment()",
+	"//b[y()]", "//*[y() and . = //c]", "string(y())", "count(//b/@*) = count($v/@*)",
 }
 
 func C14(c *run.Check) {
@@ -559,7 +617,7 @@ func C14(c *run.Check) {
 		if r := os.Getenv("XV_REPO"); r != "" {
 			repo = r
 		}
-		nvars, writes, err := c14GlobalWrites(repo)
+		nvars, writes, syncVars, err := c14GlobalScan(repo)
 		c.Set("library_package_level_vars", nvars)
 		if LibGlobals != nil {
 			c.Set("library_package_level_vars_in_fingerprint", len(LibGlobals()))
@@ -569,6 +627,10 @@ func C14(c *run.Check) {
 		switch {
 		case err != nil:
 			c.Set("library_reduction", "not claimed: the static scan of package-level variables failed: "+err.Error())
+			c.Exhaustive = false
+		case len(syncVars) > 0:
+			c.Set("library_package_level_sync_objects", syncVars)
+			c.Set("library_reduction", "not claimed: the library keeps synchronisation objects (sync / sync/atomic types) in package-level variables (listed) - shared mutable state that fingerprints cannot see; only the schedules enumerated by the bounded search and the free-running race pass are covered")
 			c.Exhaustive = false
 		case len(writes) > 0:
 			c.Set("library_package_level_writes_outside_init", writes)
@@ -607,7 +669,7 @@ func C14(c *run.Check) {
 			c.Set("race_pass", "skipped (no -race binary)")
 		}
 	}
-	c.Rule = "library: 11 scenarios of 2-3 threads x 1-2 real xsel.Exec calls sharing one cursor tree (through proxy cursors whose every accessor is a scheduling point), the compiled expressions, caller-owned binding maps and a caller-owned node-set variable with spare capacity; ALL schedules with at most 2 (thorough: 3) preemptions enumerated depth-first; in every execution each call must return its serial result, the shared slices must be unchanged at every scheduling point and deep fingerprints of tree, expressions and maps unchanged at the end; plus a read-only audit (full fingerprint of everything shared at EVERY scheduling point of two schedules per scenario + static scan for writes to package-level variables) that extends the verdict to all interleavings by independence of read-only steps (library_reduction). CLI: the real main() under the same scheduler, see cli_* keys. Auxiliary: the same bodies free-running under the race detector"
+	c.Rule = "library: 13 scenarios of 2-3 threads x 1-2 real xsel.Exec calls sharing one cursor tree (through proxy cursors whose every accessor is a scheduling point), the compiled expressions, caller-owned binding maps and a caller-owned node-set variable with spare capacity; ALL schedules with at most 2 (thorough: 3) preemptions enumerated depth-first; in every execution each call must return its serial result, the shared slices must be unchanged at every scheduling point and deep fingerprints of tree, expressions and maps unchanged at the end; plus a read-only audit (full fingerprint of everything shared at EVERY scheduling point of two schedules per scenario + static scan for writes to package-level variables) that extends the verdict to all interleavings by independence of read-only steps (library_reduction). CLI: the real main() under the same scheduler, see cli_* keys. Auxiliary: the same bodies free-running under the race detector"
 	c.Assume("scheduling points are tree accesses, user-function calls and (CLI) goroutine/channel/WaitGroup/print operations; interleavings below that granularity are covered only by the auxiliary race-detector pass")
 }
 
